@@ -215,6 +215,13 @@ def check(ctx):
     import c08 as _c08
     nh_ = core.adopt(ctx, _c08, lambda o: o["rule"] == "C08.e" and "runner:" in o["key"], "C04.h")
     ctx.floor("C04.h", nh_, 3, "shared entry-pass obligations of the runner (C08.e)")
+    # ---- C04.i a command that is neither run nor postponed is aborted through the abort helper (setup *then* cleanup): a drop
+    # path that runs only the cleanup ends a reaction that was never started and leaves the prepared entry to the next run,
+    # which then reads an event that did not cause it (shared with C02.a / C05.d) ----
+    import c05 as _c05i
+    ni_ = core.adopt(ctx, _c02, lambda o: o["rule"] == "C02.a" and any(k in o["key"] for k in ("dispositions=", "single-disposition", "setup-runs-before-callback")), "C04.i")
+    ni_ += core.adopt(ctx, _c05i, lambda o: o["rule"] == "C05.d" and "<=" not in o["key"], "C04.i")
+    ctx.floor("C04.i", ni_, 2, "shared disposition obligations (C02.a, C05.d)")
 
     # ---- C04.d who can set the flag (A9) ----
     trackers = A.tracker_types(prog)
